@@ -27,6 +27,15 @@ _TRANSPARENT_MODULES = ('builtins', 'itertools', 'operator', '_operator', 'funct
                         'numpy', 'collections', '_collections', 'copy', 'typing', 'math', 'pyvc', 'spec', 'contracts')
 
 
+class SymRange:
+    """ range(n) with symbolic n """
+    def __init__(self, n):
+        self.n = n
+
+    def __iter__(self):
+        raise Unsupported("iteration over range(symbolic n) outside a for-loop with an invariant")
+
+
 def transparent(fn):
     mod = getattr(fn, '__module__', None)
     if mod is None:
@@ -295,9 +304,19 @@ def build(interp):
 
     def m_range(*a):
         if has_sym(a):
-            raise Unsupported("range() with symbolic bound (needs a loop invariant)")
+            if len(a) == 1:
+                return SymRange(a[0])        # usable only as the iterable of a for-loop that has an invariant
+            raise Unsupported("range() with symbolic bounds other than range(n)")
         return range(*a)
     M[range] = m_range
+
+    try:
+        import tqdm as _tqdm
+        M[_tqdm.tqdm] = lambda it=None, *a_, **k_: it
+        import tqdm.std as _tqs
+        M[_tqs.tqdm] = lambda it=None, *a_, **k_: it
+    except Exception:
+        pass
 
     def m_divmod(a, b):
         return (a // b, a % b)
